@@ -1354,11 +1354,12 @@ def _handle_bucket_stage(in_collection, unused_database, options):
 def _handle_sample_stage(in_collection, unused_database, options):
     if not isinstance(options, dict):
         raise OperationFailure('the $sample stage specification must be an object')
-    size = options.pop('size', None)
+    size = options.get('size')
     if size is None:
         raise OperationFailure('$sample stage must specify a size')
-    if options:
-        raise OperationFailure('unrecognized option to $sample: %s' % set(options).pop())
+    unrecognized = [option for option in options if option != 'size']
+    if unrecognized:
+        raise OperationFailure('unrecognized option to $sample: %s' % unrecognized[0])
     shuffled = list(in_collection)
     _random.shuffle(shuffled)
     return shuffled[:size]
